@@ -102,6 +102,13 @@ def slice(ctx: fw.Ctx) -> fw.Outcome:
             src.tracks[0].groups = []
         if rng.random() < 0.2:  # very slow tempo: intervals of a day and more
             src.tempo = [(0, rng.choice([1, 2, 5]))] + src.tempo[1:]
+        if rng.random() < 0.25 and src.tracks:
+            # notes written in any tick order: on a single-tempo chart every order parses, and the rate counts notes, not positions
+            src.tempo = src.tempo[:1]
+            for tr_ in src.tracks:
+                rng.shuffle(tr_.groups)
+                for g_ in tr_.groups:
+                    g_.forced = False  # a forced note must not come first
         R = gen.render(src, rng, prof, garbage=False)
         c, e, _ = impl.parse(R.text)
         if c is None:
